@@ -13,7 +13,8 @@ Inductive kd := KInvalid | KBool | KInt | KUint | KFloat | KString
 Inductive fl := FNaN | FInf (neg : bool) | FFin (m e : Z).
 
 Record finfo := { f_name : str; f_tags : list (str * str); f_time : bool (* the field's type is time.Time *) }.
-Record sinfo := { s_name : str (* Type.Name() *); s_tstr : str (* Type.String() *) }.
+Record sinfo := { s_name : str (* Type.Name() *); s_tstr : str (* Type.String() *);
+                  s_id : str (* the identity of the type: package PATH and name (two types may print the same String()) *) }.
 
 Inductive val :=
 | VInvalid
